@@ -586,9 +586,15 @@ impl RADAU {
                             hhfac = 0.8 * qnewt.powf(exponent);
                             h *= hhfac;
                             steps.rejected += 1;
+                            reject = true;
                             last = false;
+                            call_decomp = true;
                             #[cfg(ivp_verif)] crate::verif_trace::emit("nw_slow", theta as f64);
-                            break 'newton;
+                            // The iteration would not converge within the remaining iterations: the
+                            // attempt is abandoned and retried with the reduced step (radau5: GOTO 20 / 10).
+                            // Falling through to the error estimate would judge - and possibly accept -
+                            // stage values that do not solve the collocation equations.
+                            continue 'main;
                         }
                     } else {
                         // Unexpected step rejection - continue with reduced step
